@@ -129,6 +129,14 @@ Definition parse_fixed (need extra : N) (code : N) (p : list N) : res (N * body)
 
 Definition any_code (_ : N) : bool := true.
 
+(* parse_destination_unreachable: the code is handed on as received (the regenerated flags say so); the code it had
+   before tested it against the codes of RFC 792 (0..5) / RFC 4443 (0..6) and dropped e.g. code 13, "communication
+   administratively prohibited" (RFC 1812), as malformed *)
+Definition v4_unreachable_code_ok : N -> bool :=
+  if V4_UNREACHABLE_ANY_CODE then any_code else (fun c => c <=? 5).
+Definition v6_unreachable_code_ok : N -> bool :=
+  if V6_UNREACHABLE_ANY_CODE then any_code else (fun c => c <=? 6).
+
 Definition V4_ERR_LEN : N := ICMP_MIN_COMMON_HEADER_SIZE + ICMP_V4_MIN_MATCHING_DATA_SIZE.
 Definition V6_ERR_LEN : N := ICMP_MIN_COMMON_HEADER_SIZE + MIN_IPV6_HEADER_SIZE.
 
@@ -139,7 +147,7 @@ Definition v4_deserialize (packet : list N) : res msg :=
     r <- (if (ty =? V4_ECHO_REPLY) || (ty =? V4_ECHO) then
             deserialize_packet (LowerBound ECHO_HEADER_SIZE) p parse_echo
           else if ty =? V4_DESTINATION_UNREACHABLE then
-            deserialize_packet (LowerBound V4_ERR_LEN) p (parse_data_after 4 (fun c => c <=? 5))
+            deserialize_packet (LowerBound V4_ERR_LEN) p (parse_data_after 4 v4_unreachable_code_ok)
           else if ty =? V4_SOURCE_QUENCH then
             deserialize_packet (LowerBound V4_ERR_LEN) p (parse_data_after 4 any_code)
           else if ty =? V4_REDIRECT then
@@ -161,7 +169,7 @@ Definition v6_deserialize (packet : list N) : res msg :=
   | [] => Reject
   | ty :: p =>
     r <- (if ty =? V6_DESTINATION_UNREACHABLE then
-            deserialize_packet (LowerBound V6_ERR_LEN) p (parse_data_after 4 (fun c => c <=? 6))
+            deserialize_packet (LowerBound V6_ERR_LEN) p (parse_data_after 4 v6_unreachable_code_ok)
           else if ty =? V6_PACKET_TOO_BIG then
             deserialize_packet (LowerBound V6_ERR_LEN) p (parse_data_after 4 any_code)
           else if ty =? V6_TIME_EXCEEDED then
